@@ -1,0 +1,22 @@
+//go:build !verif
+// +build !verif
+
+package dicescript
+
+import (
+	"golang.org/x/exp/rand"
+)
+
+// Verification hooks are compiled out without the `verif` build tag.
+
+func verifTick(ctx *Context, pc int) {}
+
+func verifRoll(src *rand.PCGSource, sides IntType, mode int, result IntType, family string) {}
+
+func verifParsed(ctx *Context, src string, err error) {}
+
+func verifCodeDrop() {}
+
+func verifEmit(e *ParserData, T CodeType) {}
+
+func verifYield(point string) {}
